@@ -211,7 +211,9 @@ class Interleaver:
 # ----------------------------------------------------------------------------- instrumented shared state
 class AccessLog:
     """total order of accesses of shared dicts / the cache attribute:
-    entries (thread index, dict id, action token, result token, yield points the thread had passed)"""
+    entries (thread index, dict id, action token, result token, yield points the thread had passed, extra);
+    extra: "keys"/"items"/"values" for an iterator creation, "guarded" for a look-up made inside
+    `_make_progress_bar`'s try/except, "test"/"use" for a read of the cache attribute"""
 
     def __init__(self, il_ref):
         self.il_ref = il_ref     # callable returning the current Interleaver (or None)
@@ -229,12 +231,12 @@ class AccessLog:
         self.dicts.append(d)
         return d
 
-    def add(self, dict_id, act, res):
+    def add(self, dict_id, act, res, extra=""):
         if self.enabled:
             il = self.il_ref()
             w = self.who()
             step = il.steps[w] if (il is not None and 0 <= w < len(il.steps)) else -1
-            self.entries.append((w, dict_id, act, res, step))
+            self.entries.append((w, dict_id, act, res, step, extra))
 
 
 class DictLog:
@@ -274,19 +276,19 @@ class DictLog:
                     self.n_cls += 1
             return self.clsmap[id(c)][0]
 
-    def add(self, act, res):
-        self.al.add(self.id, act, res)
+    def add(self, act, res, extra=""):
+        self.al.add(self.id, act, res, extra)
 
 
 class _TracedIter:
-    def __init__(self, d, it, proj):
+    def __init__(self, d, it, proj, kind=""):
         self.d, self.it, self.proj = d, it, proj
         self.id = d.log.n_iter
         d.log.n_iter += 1
         self.size0 = dict.__len__(d)
         self.ins0 = d.inserts
         self.dead = False
-        d.log.add(f"I{self.id}", "u")
+        d.log.add(f"I{self.id}", "u", kind)
 
     def __iter__(self):
         return self
@@ -317,17 +319,29 @@ class _TracedIter:
 
 
 class _TracedView:
-    def __init__(self, d, proj):
-        self.d, self.proj = d, proj
+    def __init__(self, d, proj, kind):
+        self.d, self.proj, self.kind = d, proj, kind
 
     def __iter__(self):
-        return _TracedIter(self.d, iter(dict.items(self.d)), self.proj)
+        return _TracedIter(self.d, iter(dict.items(self.d)), self.proj, self.kind)
 
     def __len__(self):
         return dict.__len__(self.d)
 
     def __contains__(self, x):
         return x in list(self)
+
+
+def _called_from(name, depth=14):
+    """is a function called `name` among the callers (look-ups inside its try/except never surface)"""
+    f = sys._getframe(2)
+    for _ in range(depth):
+        if f is None:
+            return False
+        if f.f_code.co_name == name:
+            return True
+        f = f.f_back
+    return False
 
 
 class TracedRegistry(dict):
@@ -359,17 +373,18 @@ class TracedRegistry(dict):
         self.log.add(f"D{self.log.key(k)}", "u")
 
     def __getitem__(self, k):
+        extra = "guarded" if _called_from("_make_progress_bar") else ""
         try:
             v = dict.__getitem__(self, k)
         except KeyError:
-            self.log.add(f"G{self.log.key(k)}", "eKeyError")
+            self.log.add(f"G{self.log.key(k)}", "eKeyError", extra)
             raise
-        self.log.add(f"G{self.log.key(k)}", "u")
+        self.log.add(f"G{self.log.key(k)}", "u", extra)
         return v
 
     def __contains__(self, k):
         r = dict.__contains__(self, k)
-        self.log.add(f"C{self.log.key(k)}", "b1" if r else "b0")
+        self.log.add(f"C{self.log.key(k)}", "b1" if r else "b0", "guarded" if _called_from("_make_progress_bar") else "")
         return r
 
     def get(self, k, default=None):
@@ -381,13 +396,13 @@ class TracedRegistry(dict):
         return default
 
     def items(self):
-        return _TracedView(self, lambda k, v: (k, v))
+        return _TracedView(self, lambda k, v: (k, v), "items")
 
     def values(self):
-        return _TracedView(self, lambda k, v: v)
+        return _TracedView(self, lambda k, v: v, "values")
 
     def keys(self):
-        return _TracedView(self, lambda k, v: k)
+        return _TracedView(self, lambda k, v: k, "keys")
 
     def __iter__(self):
         return iter(self.keys())
